@@ -29,6 +29,7 @@ import tempfile
 from . import build
 
 ADDR_NO_RANDOMIZE = 0x0040000
+MAX_LOG_BYTES = 64 << 20
 _libc = None
 
 
@@ -174,7 +175,7 @@ def run_case(case, timeout=20.0, keep_dir=False):
                 inode_after[name] = None
         try:
             with open(os.path.join(d, ".elog")) as f:
-                raw = f.read()
+                raw = f.read(MAX_LOG_BYTES)
         except FileNotFoundError:
             raw = ""
         return {
@@ -273,7 +274,7 @@ class ForkServer:
             def rd(name):
                 try:
                     with open(os.path.join(d, name), "rb") as f:
-                        return enc(f.read())
+                        return enc(f.read(MAX_LOG_BYTES))
                 except FileNotFoundError:
                     return ""
             files_after, inode_after = {}, {}
